@@ -37,7 +37,7 @@ Qed.
 
 (* a matching instant after prev that is not such a repeat is never passed over *)
 Theorem nft_zone_never_skips_fresh : forall f z prev t,
-  wf_fields f = true -> wf_zone z = true -> 0 <= prev <= max_nanos ->
+  wf_fields f = true -> wf_zone z = true -> min_nanos <= prev <= max_nanos ->
   prev < t <= max_nanos -> t mod nanos = 0 -> matches_at f z t -> ~ is_repeat z t ->
   exists ns, next_fire_time_zone f z prev = Fire ns /\ ns <= t.
 Proof.
@@ -50,7 +50,7 @@ Qed.
 
 (* nothing but repeats is skipped *)
 Theorem nft_zone_skips_only_repeats : forall f z prev ns t,
-  wf_fields f = true -> wf_zone z = true -> 0 <= prev <= max_nanos ->
+  wf_fields f = true -> wf_zone z = true -> min_nanos <= prev <= max_nanos ->
   next_fire_time_zone f z prev = Fire ns ->
   prev < t < ns -> t mod nanos = 0 -> matches_at f z t -> is_repeat z t.
 Proof.
@@ -63,7 +63,7 @@ Qed.
 
 (* no false expiry: when expiry is reported, every matching instant still ahead is a repeat *)
 Theorem nft_zone_no_false_expiry : forall f z prev t,
-  wf_fields f = true -> wf_zone z = true -> 0 <= prev <= max_nanos ->
+  wf_fields f = true -> wf_zone z = true -> min_nanos <= prev <= max_nanos ->
   next_fire_time_zone f z prev = Expired ->
   prev < t <= max_nanos -> t mod nanos = 0 -> matches_at f z t -> is_repeat z t.
 Proof.
